@@ -306,3 +306,4 @@ _Y = "Also: write_rfc3339's signed-year format template is one zero-padded place
 also("C10", _Y)
 also("C12", _Y)
 also("C16", "Also: parser::parse enables the footer-string extensions for Version::V3 only (read from the `== Version::V3` argument or from a match on the version that selects the flag; other spellings are left undecided).")
+also("C16", "Also (error discipline): in validate(), TimeZone::new and parser::parse no path on which an in-crate Result-returning callee came back Err ends in acceptance.")
